@@ -251,6 +251,19 @@ def annotate_fn(text, ann, clauses, fname):
             raise LostAnchor('%s: loop without body' % fname)
         loops.append((mo.group(1), mo.start(), mo.end(), lob, match_brace(m, lob)))
     fingerprint = {'loops': [k for (k, *_) in loops]}
+    if ann.get('isolated_loops') and loops and 0 in {int(k) for k in (ann.get('loops') or {})}:
+        # A loop verified in isolation forgets the definition of an immutable local bound before it.  So that hoisting a pure
+        # sub-expression into a `let` in front of the loop is not mistaken for a violation, every top-level
+        # `let name = <call-free expression>;` before the first loop becomes the invariant `name == (<expression>)` of that loop
+        # (generated from the code; if it does not type-check in spec mode the front end rejects the file: exit 2, no alarm).
+        first = loops[0][1]
+        auto = []
+        for mo in re.finditer(r'(?m)^    let\s+([a-z_][a-z0-9_]*)\s*(?::[^=;]+)?=\s*([^;{}()]+);', m[ob + 1:first]):
+            auto.append('%s == (%s)' % (mo.group(1), text[ob + 1 + mo.start(2):ob + 1 + mo.end(2)].strip()))
+        if auto:
+            ann = dict(ann); lp = dict(ann['loops']); k0 = [k for k in lp if int(k) == 0][0]
+            l0 = dict(lp[k0]); l0['invariant'] = list(l0.get('invariant') or []) + auto; lp[k0] = l0; ann['loops'] = lp
+            fingerprint['auto_invariants'] = auto
     for idx, spec in (ann.get('loops') or {}).items():
         idx = int(idx)
         if idx >= len(loops):
